@@ -213,7 +213,7 @@ def _save_writes_its_argument(ck):
     ck.floor("C08.8 writeAlignments call in saveAdditionalOutput", n, 1)
 
 
-def _file_naming(ck):
+def _file_naming(ck, rule="C08.2"):
     p = ck.ctx.p
     fn = p.find_method("_MultiPassWorkflowCoordinator", "createAdditionalOutputFile")
     rets = [pa for pa in explore(ck, fn) if pa.outcome == "return"]
@@ -272,14 +272,14 @@ def _file_naming(ck):
     if order is None:
         raise AnalysisError(f"{w}: file-name construction not recognised: {T.show(name_arg)[:160]}")
     fields = [x[1] for x in order if x[0] == "field"]
-    ck.judge(fields == ["stem", "number", "ext"], "C08.2", "createAdditionalOutputFile:name", w,
+    ck.judge(fields == ["stem", "number", "ext"], rule, "createAdditionalOutputFile:name", w,
              "additional file name = <stem>_<number><extension>", found=str(order), required="stem, '_', number, ext")
     # the name is derived from the main output file and opened for writing
     ok_src = any(x == self_attr("args", "outputFile", "name") for x in T.subterms(name_arg))
-    ck.judge(ok_src, "C08.2", "createAdditionalOutputFile:source", w, "name is derived from the main output file's name",
+    ck.judge(ok_src, rule, "createAdditionalOutputFile:source", w, "name is derived from the main output file's name",
              found=T.show(name_arg)[:160])
     mode = dict(v[3]).get("mode") or (v[2][1] if len(v[2]) > 1 else None)
-    ck.judge(mode == C("w"), "C08.2", "createAdditionalOutputFile:mode", w, "additional file is opened for writing (truncated)",
+    ck.judge(mode == C("w"), rule, "createAdditionalOutputFile:mode", w, "additional file is opened for writing (truncated)",
              found=T.show(mode) if mode else "default 'r'", required="'w'")
 
 
